@@ -31,6 +31,9 @@ def fixed_cases(tier):
     out = [
         {"kind": "sd", "blocks": [[0, 2 * 65535 + 10, 0]]},
         {"kind": "sd", "blocks": [[1, 65534, 0], [2, 3, 1], [1, 1, 1], [0, 65535, 0], [2, 2, 0], [1, 2, 2], [0, 2, 2], [2, 65531, 0], [2, 3, 2]]},
+        {"kind": "sd", "blocks": [[0, 65534, 1], [0, 3, 2], [2, 65533, 0], [2, 1, 1], [2, 4, 1]]},
+        {"kind": "sd", "blocks": [[1, 65540, 2]]},
+        {"kind": "notify", "nev": 2, "eps": 3, "script": [["sub!", 0], ["unsub!", 0], ["sub", 0], ["rounds", 3], ["sub!", 1], ["unsub", 1], ["sub", 1], ["rounds!", 2], ["unsub", 0], ["sub", 0], ["rounds", 2]]},
         {"kind": "notify", "nev": 4, "eps": 3, "script": [["sub", 0], ["rounds", 100], ["sub", 1], ["rounds", 16300], ["unsub", 0], ["sub", 2], ["rounds", 200], ["sub", 0], ["rounds", 3]]},
     ]
     if tier == "thorough":
@@ -45,10 +48,10 @@ def _case(draw):
         nev = draw(st.integers(1, 4))
         script = []
         for _ in range(draw(st.integers(1, 10))):
-            op = draw(st.sampled_from(["sub", "sub", "unsub", "rounds", "rounds", "subset"]))
-            if op in ("sub", "unsub"):
+            op = draw(st.sampled_from(["sub", "sub", "unsub", "rounds", "rounds", "subset", "sub!", "unsub!", "rounds!"]))
+            if op in ("sub", "unsub", "sub!", "unsub!"):
                 script.append([op, draw(st.integers(0, 2))])
-            elif op == "rounds":
+            elif op in ("rounds", "rounds!"):
                 script.append([op, draw(st.sampled_from([1, 2, 3, 50]))])
             else:
                 script.append([op, draw(st.integers(0, (1 << nev) - 1))])
@@ -193,6 +196,12 @@ def _run_notify(case):
                 seen = 0
 
         for op, arg in case["script"]:
+            lazy = op.endswith("!")  # no idle point after this step: the next one happens in the same iteration
+            op = op.rstrip("!")
+            _drain = drain
+            if lazy:
+                def drain():  # noqa: E306
+                    pass
             if op == "sub":
                 i = arg % len(EPS)
                 if i in subscribed:
@@ -219,6 +228,8 @@ def _run_notify(case):
                 evs = [e + 1 for e in range(nev) if arg & (1 << e)]
                 eg.notify_once(evs)
                 drain()
+            drain = _drain
+        drain()
         require(not sim.loop.errors and not sim.loop.task_errors(), "C08.loop-error",
                 lambda: str(sim.loop.errors[:2]) + str(sim.loop.task_errors()[:2]))
     multi = len(counts) > 1 and len(set(counts.values())) > 1
